@@ -36,7 +36,7 @@ import (
 )
 
 type c16Op struct {
-	Kind     string `json:"kind"` // raw frame ping settings ack open prioopen openreset rst wu cont data prio pupd trailers goaway
+	Kind     string `json:"kind"` // raw frame ping settings ack open prioopen openreset rst wu cont data prio pupd trailers bigopen goaway
 	N        int    `json:"n,omitempty"`
 	K        int    `json:"k,omitempty"`
 	V        uint32 `json:"v,omitempty"`
@@ -92,6 +92,26 @@ func c16Block(kv ...string) []byte {
 		b = append(b, kv[i+1]...)
 	}
 	return b
+}
+
+// c16BigField is a literal field without indexing whose value has n octets (7-bit prefix
+// integer with continuation octets for the length).
+func c16BigField(name string, n int) []byte {
+	b := []byte{0x00, byte(len(name))}
+	b = append(b, name...)
+	if n < 127 {
+		b = append(b, byte(n))
+	} else {
+		b = append(b, 127)
+		for v := n - 127; ; v >>= 7 {
+			if v < 128 {
+				b = append(b, byte(v))
+				break
+			}
+			b = append(b, byte(v&0x7f)|0x80)
+		}
+	}
+	return append(b, make([]byte, n)...)
 }
 
 func c16Req(path int, extra ...string) []byte {
@@ -206,7 +226,7 @@ func c16Gen(t *rapid.T) c16Case {
 	switch mode {
 	case 1:
 		kinds = []string{"frame", "frame", "raw", "ping", "settings", "ack", "open", "open", "open", "open", "open", "open", "openreset",
-			"rst", "rst", "rst", "wu", "wu", "wu", "cont", "data", "data", "prio", "prio", "prioopen", "prioopen", "pupd", "pupd", "trailers", "trailers", "goaway"}
+			"rst", "rst", "rst", "wu", "wu", "wu", "cont", "data", "data", "prio", "prio", "prioopen", "prioopen", "pupd", "pupd", "trailers", "trailers", "bigopen", "goaway"}
 	case 2:
 		kinds = []string{"ping", "ping", "settings", "settings", "ack", "open", "open", "openreset", "openreset", "rst", "rst", "wu", "wu", "cont", "cont", "data", "prio", "prioopen", "frame"}
 	}
@@ -254,6 +274,11 @@ func c16Gen(t *rapid.T) c16Case {
 			o.K = k.Draw(t, "k")
 			o.V = uint32(rapid.IntRange(0, 4).Draw(t, "variant"))
 			o.End = rapid.IntRange(0, 5).Draw(t, "end") != 0
+		case "bigopen": // request whose header list is larger than a small MaxHeaderBytes allows
+			o.N = rapid.IntRange(1, 3).Draw(t, "n")
+			o.Path = path.Draw(t, "path")
+			o.V = rapid.SampledFrom([]uint32{900, 1100, 1500, 3000, 4500, 9000, 16000}).Draw(t, "size")
+			o.End = rapid.Bool().Draw(t, "end")
 		case "pupd": // PRIORITY_UPDATE (RFC 9218) for open streams or for the streams opened next
 			o.N = rapid.IntRange(1, 3).Draw(t, "n")
 			o.K = rapid.OneOf(rapid.IntRange(0, 60), rapid.Just(-1)).Draw(t, "k")
@@ -580,6 +605,15 @@ func c16Run(c c16Case, r *vp.Rec) (err error) {
 			if o.Prio != "" {
 				blk = c16Req(o.Path, "priority", o.Prio)
 			}
+			for i := 0; i < n; i++ {
+				b = c16Frame(b, c16TypeHeaders, fl, newID(), blk, 0)
+			}
+		case "bigopen":
+			var fl uint8 = c16EndHeaders
+			if o.End {
+				fl |= c16EndStream
+			}
+			blk := append(c16Req(o.Path), c16BigField("x-vp-big", int(o.V))...)
 			for i := 0; i < n; i++ {
 				b = c16Frame(b, c16TypeHeaders, fl, newID(), blk, 0)
 			}
